@@ -79,6 +79,8 @@ type Obligation struct {
 }
 
 type VC struct {
+	sliceShortened string // position of a s[:k] on a slice (value model of slices has no aliasing)
+	appendSeen     string // position of an append
 	P        *Program
 	S        *SortReg
 	fn       *ssa.Function
